@@ -57,7 +57,13 @@ func genTextB(t *rapid.T, l string) string {
 		rapid.Just("with space"),
 		rapid.Just("C:\\dir\\sub"),
 	).Draw(t, l)
-	return "M" + rapid.StringMatching(`[a-z]{3}`).Draw(t, l+"m") + tail + "Z"
+	// one string in ten starts with a code point that text layers like to treat specially
+	// (byte order marks in either byte order, zero-width space): it is part of what was sent
+	pre := ""
+	if rapid.IntRange(0, 9).Draw(t, l+"_edge") == 0 {
+		pre = string(rapid.SampledFrom([]rune{0xfeff, 0xfffe, 0x200b, 0xfffd}).Draw(t, l+"_sp"))
+	}
+	return pre + "M" + rapid.StringMatching(`[a-z]{3}`).Draw(t, l+"m") + tail + "Z"
 }
 
 func genB(t *rapid.T) CaseB {
